@@ -192,3 +192,29 @@ Example number_text_examples :
 Proof. repeat split. Qed.
 Example minus_fifteen32 : parse_float "-15" 32 = POk 3245342720.
 Proof. vm_compute. reflexivity. Qed.
+
+(* as an equation: the literal is read as the single rounding of the number it denotes *)
+Theorem number_literal_float sg ip fo bits p ebits emin emaxe :
+  (bits = 64 /\ p = 53 /\ ebits = 11 /\ emin = -1074 /\ emaxe = 971) \/ (bits = 32 /\ p = 24 /\ ebits = 8 /\ emin = -149 /\ emaxe = 104) ->
+  ip <> [] -> Forall is_digit ip -> frac_ok fo ->
+  let mant := dval (ip ++ frac_digits fo) 0 in
+  let den := 10 ^ Z.of_nat (List.length (frac_digits fo)) in
+  0 < mant ->
+  parse_float (number_text sg ip fo) bits =
+  match round_rat mant den p emin emaxe with None => PErr PRange | Some me => POk (float_bits sg (Some me) p ebits) end.
+Proof.
+  intros F Hne Hip Hfo mant den Hpos.
+  assert (Hfmt : is_format p emin emaxe) by (destruct F as [(_ & -> & _ & -> & ->)|(_ & -> & _ & -> & ->)]; [left|right]; repeat split).
+  assert (U : forall c t, parse_float_core (String c t) bits =
+     let neg := b2z c =? 45 in let body := if (b2z c =? 43) || neg then t else String c t in
+     if is_hex_b body then hex_tail body neg p ebits emin emaxe else dec_tail body neg p ebits emin emaxe).
+  { destruct F as [(-> & -> & -> & -> & ->)|(-> & -> & -> & -> & ->)]; [exact pfc_unfold64|exact pfc_unfold32]. }
+  rewrite (parse_float_number sg ip fo bits p ebits emin emaxe U Hne Hip Hfo).
+  rewrite (dec_tail_number ip fo sg p ebits emin emaxe Hne Hip Hfo). cbv zeta. fold mant.
+  rewrite (eqb_false mant 0) by lia.
+  set (e10 := - Z.of_nat (List.length (frac_digits fo))).
+  assert (Hr : dec_round mant e10 p emin emaxe = round_rat mant den p emin emaxe) by (unfold e10; rewrite dec_round_frac by lia; reflexivity).
+  destruct (Z.ltb_spec (Z.log2 mant + 1 + 3 * e10) (-1100)) as [G|G].
+  - pose proof (decimal_underflow_guard mant e10 p emin emaxe Hfmt Hpos G) as Z0. rewrite Hr in Z0. rewrite Z0. reflexivity.
+  - rewrite Hr. reflexivity.
+Qed.
